@@ -695,20 +695,28 @@ def metamorphic(ctx, post, r, rounds):
 
 
 def regenerate(ctx):
-    try:
-        import standardize as gen_std
-        from pyexpr import Unsupported
-    except ImportError as e:  # translator not present: the kernels file is used as committed
-        ctx.log("no translator: %s" % e)
-        return None
+    """-> 'ok' | 'fallback' (structure not recognised: reference kernels, correspondence only)
+          | 'unsafe' (a formula the exact model cannot represent: tie broken)."""
+    import standardize as gen_std
+    from pyexpr import Unsupported
+
     out = os.path.join(C.COQ, "gen", "StandardizeK.v")
     try:
         gen_std.main(os.path.join(C.SRC, "post.py"), out)
-        return True
-    except (Unsupported, SyntaxError, OSError, KeyError) as e:
-        ctx.fail("translator gen/standardize.py no longer recognises Standardize in post.py: %s" % e,
+        ctx.cov["translator"] = "ok: coq/gen/StandardizeK.v regenerated from post.py"
+        return "ok"
+    except gen_std.Unsafe as e:
+        gen_std.main(None, out, fallback=True)
+        ctx.cov["translator"] = "unsafe: %s" % e
+        ctx.fail("translator gen/standardize.py: post.py computes a formula the exact model cannot stand for: %s" % e,
                  dict(correspondence="gen/standardize.py -> coq/gen/StandardizeK.v", error=str(e)), kind="tie", no_input=True)
-        return False
+        return "unsafe"
+    except (Unsupported, SyntaxError, OSError, KeyError, IndexError, AttributeError) as e:
+        gen_std.main(None, out, fallback=True)
+        ctx.cov["translator"] = "fallback: structure of Standardize not recognised (%s); reference kernels used, tie by correspondence only" % e
+        ctx.log("translator: structure of Standardize not recognised (%s); using the reference kernels, "
+                "the tie rests on the correspondence check alone (cases x3)" % e)
+        return "fallback"
 
 
 def shrink(post, case, pred):
@@ -734,20 +742,23 @@ def run(ctx):
 
     post = importlib.import_module("pydrobert.speech.post")
     r = ctx.rng
-    ok_gen = regenerate(ctx)
-    pr = C.proof_step(ctx) if ok_gen is not False else None
+    gen_state = regenerate(ctx)
+    pr = C.proof_step(ctx)
     ctx.cov["trusted_base"].append("translator /verif/gen/standardize.py (Python ast -> scalar kernels over a number structure)")
     ctx.cov["trusted_base"].append("hand-written model coq/C16/Model.v of NumPy plumbing (C-order views, tuple indexing, dispatch), tied by the correspondence below")
 
     # ---- correspondence
-    ncases = ctx.scale(700, 12000)
+    ncases = ctx.scale(2000, 30000) * (3 if gen_state != "ok" else 1)
     cases = []
     for _ in range(ncases):
         c = gen_history(ctx, r, ctx.scale(7, 10))
         cases.append(add_cond_tolerances(c))
     impl = [impl_run(post, c) for c in cases]
+    ctx.log("implementation run on %d histories" % len(cases))
     ok_model, out = C.coq_make(["C16/Model.v"])
+    ctx.log("model built")
     models = model_run(ctx, cases) if ok_model else [None] * len(cases)
+    ctx.log("model evaluated on %d histories" % len(cases))
     if not ok_model:
         ctx.fail("model no longer compiles", dict(correspondence="coq/C16/Model.v", log_tail=out[-1500:]), kind="tie", no_input=True)
     ctx.cov["rule"] = (
@@ -792,7 +803,9 @@ def run(ctx):
             small = shrink(post, c, lambda t: bool(oracle_check(post, t)))
             what, detail = (oracle_check(post, small) or bad)[0]
             ctx.fail("property violated on the implementation (%s): %r" % (what, detail), dict(case=strip(small), detail=detail), kind="impl")
-    mm = metamorphic(ctx, post, r, ctx.scale(150, 3000))
+    ctx.log("oracle checked")
+    mm = metamorphic(ctx, post, r, ctx.scale(400, 6000))
+    ctx.log("metamorphic search done")
     for what, detail in mm[:5]:
         ctx.fail("property violated on the implementation (%s)" % what, detail, kind="impl")
     if pr is not None and not pr["ok"] and not ctx.failures:
